@@ -146,6 +146,11 @@ def replay(scratch: Path, ob: dict, vals: list, logdir: Path):
     elif expect == "error_if_nonfinite":
         if any(is_nonfinite(x) for x in flat):
             reproduced = reproduced or p.returncode == 0
+        # an integer epoch outside jiff's documented range of seconds must be an error as well
+        # (a wrapped product would be answered with a different instant)
+        for x in flat:
+            if isinstance(x, dict) and x.get("int") is not None and not (-377705023201 <= x["int"] <= 253402207200):
+                reproduced = reproduced or p.returncode == 0
     return {"ran": True, "filter": filt, "decoded_inputs": ins, "exit_status": p.returncode, "stdout": p.stdout[-500:],
             "stderr": p.stderr[-800:], "expect": expect, "reproduced": reproduced,
             "cmd": f"jaq -nc {filt!r}   (binary built from the snapshot, debug profile)"}
